@@ -34,6 +34,7 @@ type HarnessSpec struct {
 	Validate *bool    `json:"validate"` // translator validation with random vectors (default = native)
 	Arith    bool     `json:"arith"`
 	MapOrderAny bool  `json:"map_order_any"`
+	FifoChans bool    `json:"fifo_chans"`
 	Note     string   `json:"note"`
 }
 
@@ -64,6 +65,7 @@ type RunCfg struct {
 	ClampAlloc      bool
 	UnboundedChans  bool
 	MapOrderAny     bool
+	FifoChans       bool
 	MaxViolPerLabel int
 	SkipInit        map[string]bool
 	noopPkgs        []string
@@ -777,6 +779,7 @@ func runCheck(specPath, tier, only string, workers int, noNative, trace bool) in
 		}
 		hcfg := *cfg
 		hcfg.MapOrderAny = h.MapOrderAny
+		hcfg.FifoChans = h.FifoChans
 		o, err := explore(l, &hcfg, fn, h.Name, workers, solverKind, h.Arith, trace)
 		if err != nil {
 			fatal2("explore %s: %v", h.Name, err)
@@ -854,6 +857,7 @@ func runCheck(specPath, tier, only string, workers int, noNative, trace bool) in
 		fn := l.pkgs[h.Pkg].Func(h.Name)
 		hcfg := *cfg
 		hcfg.MapOrderAny = false
+		hcfg.FifoChans = h.FifoChans
 		// --- violations: group by label|finding, confirm first witness of each
 		seen := map[string]bool{}
 		for _, v := range o.res.Violations {
@@ -1063,6 +1067,9 @@ func compactInputs(in []InputRec) []string {
 }
 
 func replayFile(path string) int {
+	if abs, err := filepath.Abs(path); err == nil {
+		path = abs
+	}
 	data, err := os.ReadFile(path)
 	if err != nil {
 		fmt.Println("cannot read replay:", err)
